@@ -16,7 +16,7 @@ if len(sys.argv) > 3 and sys.argv[3] == "--auto":
     runline = next(l for l in lines if l.startswith("RUN:")).split(":", 1)[1].strip()
     import shlex
     demo_cmd = [a for a in shlex.split(runline) if "=" not in a or not a.split("=")[0].isupper()]
-    outname = {"2": {"A": "C", "B": "D"}, "3": {"A": "E", "B": "F"}}[rnd][which]
+    outname = {"2": {"A": "C", "B": "D"}, "3": {"A": "E", "B": "F"}, "4": {"A": "G", "B": "H"}}[rnd][which]
 else:
     demo_dest = sys.argv[3]
     demo_cmd = sys.argv[4:]
